@@ -7,6 +7,7 @@
    no reader for answers): exactly one LF-terminated line, `w` followed by blank-separated decimal
    labels, resp. one bracketed comma-separated list. *)
 From Crusta Require Import Spec.IoSpec Proofs.IoBase Proofs.WritersProofs Properties.C12.
+From Crusta Require Proofs.Clauses2.
 
 (* an ICCMA'23 extension line reads back to exactly the labels (usize, any value) it contained,
    in order, the empty extension included *)
@@ -90,6 +91,20 @@ Qed.
 Theorem C14_utf8_roundtrip : forall s, Forall scalar s -> utf8_decode (utf8_encode s) = Some s.
 Proof. exact IoBase.utf8_roundtrip. Qed.
 
+(* the two extension formats, byte for byte, "and nothing else is emitted": the ICCMA'23 writer emits
+   `w`, then one blank and the decimal digits of each label, then ONE line feed; the Aspartix writer
+   emits `[`, the labels separated by single commas, `]` and ONE line feed; no other line feed occurs,
+   so each is exactly one line (status lines: C14_status_exact; the whole stdout of a run is one status
+   line and/or one such line: C05_render_shape) *)
+Theorem C14_extension_lines_exact :
+  (forall labels : list N,
+     write_w labels = [119%N] ++ flat_map (fun n => 32%N :: dec n) labels ++ [10%N] /\
+     ~ In 10%N (flat_map (fun n => 32%N :: dec n) labels)) /\
+  (forall labels : list str, Forall label_ok labels ->
+     write_bracket labels = [91%N] ++ join_comma (map utf8_encode labels) ++ [93%N; 10%N] /\
+     ~ In 10%N (join_comma (map utf8_encode labels))).
+Proof. exact Clauses2.extension_lines_exact. Qed.
+
 Print Assumptions C14_w_roundtrip.
 Print Assumptions C14_bracket_roundtrip.
 Print Assumptions C14_identifiers_are_label_ok.
@@ -97,3 +112,4 @@ Print Assumptions C14_status_exact.
 Print Assumptions C14_apx_read_of_written_partial.
 Print Assumptions C14_apx_read_of_written.
 Print Assumptions C14_utf8_roundtrip.
+Print Assumptions C14_extension_lines_exact.
